@@ -381,6 +381,8 @@ def gmres(A: LinearOperator, B: torch.Tensor,
 
     best_resid = best_resid.max().item()
     best_res = x0
+    # with E, the columns are moved to the leading batch dimension: r is (ncols, *batchdims, nr, 1)
+    batchdims, ncols = r.shape[:-2], r.shape[-1]
     q = torch.empty([max_niter] + list(r.shape), dtype=A.dtype, device=A.device)
     q[0] = r / _safedenom(r.norm(dim=-2, keepdim=True), eps)  # torch.Size([*batch_dims, nr, ncols])
     h = torch.zeros((*batchdims, ncols, max_niter + 1, max_niter), dtype=A.dtype, device=A.device)
@@ -392,14 +394,13 @@ def gmres(A: LinearOperator, B: torch.Tensor,
             h[..., j, k] = _dot(q[j], y).reshape(-1, ncols)
             y = y - h[..., j, k].reshape(*batchdims, 1, ncols) * q[j]
 
-        h[..., k + 1, k] = torch.linalg.norm(y, dim=-2)
+        h[..., k + 1, k] = torch.linalg.norm(y, dim=-2).reshape(-1, ncols)
         if torch.any(h[..., k + 1, k]) != 0 and k != max_niter - 1:
-            q[k + 1] = y.reshape(-1, nr, ncols) / h[..., k + 1, k].reshape(-1, 1, ncols)
-            q[k + 1] = q[k + 1].reshape(*batchdims, nr, ncols)
+            q[k + 1] = y / h[..., k + 1, k].reshape(*batchdims, 1, ncols)
 
         b = torch.zeros((*batchdims, ncols, k + 1), dtype=A.dtype, device=A.device)
         b = b.reshape(-1, ncols, k + 1)
-        b[..., 0] = torch.linalg.norm(r, dim=-2)
+        b[..., 0] = torch.linalg.norm(r, dim=-2).reshape(-1, ncols)
         rk = torch.linalg.lstsq(h[..., :k + 1, :k], b)[0]  # torch.Size([*batch_dims, max_niter])
         # Q, R = torch.linalg.qr(h[:, :k+1, :k], mode='complete')
         # result = torch.triangular_solve(torch.matmul(Q.permute(0, 2, 1), b[:, :, None])[:, :-1], R[:, :-1, :])[0]
@@ -430,6 +431,9 @@ def gmres(A: LinearOperator, B: torch.Tensor,
         warnings.warn(ConvergenceWarning(msg))
 
     res = best_res
+    if col_swapped:
+        # res: (ncols, *, nr, 1)
+        res = res.transpose(0, -1).squeeze(0)  # (*, nr, ncols)
     return res
 
 
